@@ -26,6 +26,8 @@ inductive ExtQ where
   | timeparse (layout val : Bytes) -- parseTimeStrict: time.Parse succeeds and Format(layout) gives the input back: 1, else 0
   | atoierr (s : Bytes)            -- text of the error strconv.Atoi returns for s
   | unescapeerr (s : Bytes)        -- text of the error url.QueryUnescape returns for s
+  | deepeq (fpA fpB : Bytes)       -- reflect.DeepEqual of the two values with these fingerprints: 1 equal, 0 different, 2 cannot be told
+  | sprint (fp : Bytes)            -- fmt.Sprintf("%v", v) of the value with fingerprint fp: 1 + text; 0 = cannot be told from the wire format
 deriving Repr, DecidableEq, BEq
 
 structure ExtA where
@@ -203,26 +205,40 @@ def ruleBound (validName obj field : Bytes) (tv : GoVal) (isMin hasEqual : Bool)
     | false, false => b! "it is more than or equal"
   if violated then violClause obj field r.valStr cusMsg [txt, intToBytes bound, r.unit] else []
 
-/-- rendering of `ToStr(tv.Interface())` for the values the rules are applied to -/
-def toStrIface (tv : GoVal) : M Bytes :=
+/-- `fmt.Sprintf("%v", v)` of a value whose rendering is not modelled (composites, pointers): a residual -/
+def sprintExt (ext : Ext) (v : GoVal) : M Bytes := do
+  let a ← askExt ext (.sprint v.fp)
+  if a.code == 1 then pure a.text else throw (.unmodelled "ToStr of composite")
+
+/-- `%v` of a slice / array of non-float scalars: `[a b c]` -/
+def scalarParts (es : GoVals) : Option (List Bytes) :=
+  es.toList.mapM (fun e => match e with
+    | .float _ _ _ _ => none
+    | e => e.toStr)
+
+/-- `ToStr(x)` for a dynamic value `x` -/
+def toStrDyn (ext : Ext) (v : GoVal) : M Bytes :=
+  match v.toStr with
+  | some s => pure s
+  | none =>
+    match v with
+    | .slice tstr _ _ es | .array tstr _ es =>
+      -- `case []byte: return string(value)`
+      if tstr == b! "[]uint8" then
+        pure (es.toList.filterMap fun e => match e with | .uint _ n => some (UInt8.ofNat n) | _ => none)
+      else
+        match scalarParts es with
+        | some parts => pure ([91] ++ Bytes.join [SP] parts ++ [93])
+        | none => sprintExt ext v
+    | _ => sprintExt ext v
+
+/-- rendering of `ToStr(tv.Interface())` for the values the rules are applied to: an interface-kind
+value yields its dynamic value (`nil` renders as the empty string) -/
+def toStrIface (ext : Ext) (tv : GoVal) : M Bytes :=
   match tv with
-  | .iface (some v) => (match v.toStr with | some s => pure s | none => throw (.unmodelled "ToStr of composite"))
-  | v => match v.toStr with
-    | some s => pure s
-    | none =>
-      -- fmt %v of a slice/array of scalars: "[a b c]"
-      match v with
-      | .slice tstr _ _ es | .array tstr _ es =>
-        -- `case []byte: return string(value)`
-        if tstr == b! "[]uint8" then
-          pure (es.toList.filterMap fun e => match e with | .uint _ n => some (UInt8.ofNat n) | _ => none)
-        else
-          match es.toList.mapM (fun e => match e with
-              | .float _ _ _ _ => none
-              | e => e.toStr) with
-          | some parts => pure ([91] ++ Bytes.join [SP] parts ++ [93])
-          | none => throw (.unmodelled "ToStr of composite")
-      | _ => throw (.unmodelled "ToStr of composite")
+  | .iface (some v) => toStrDyn ext v
+  | .iface none => pure []
+  | v => toStrDyn ext v
 
 /-- `eq`: (eqStr, unit, cusMsg, isEq) -/
 def eqCore (validName : Bytes) (tv : GoVal) : Bytes × Bytes × Bytes × Bool :=
@@ -236,10 +252,10 @@ def eqCore (validName : Bytes) (tv : GoVal) : Bytes × Bytes × Bytes × Bool :=
   | .slice _ _ _ es => (eqStr, sliceLenUnitStr, cusMsg, (es.length : Int) == n)
   | _ => (eqStr, numUnitStr, cusMsg, false)
 
-def ruleEq (validName obj field : Bytes) (tv : GoVal) (wantEq : Bool) : M Bytes := do
+def ruleEq (ext : Ext) (validName obj field : Bytes) (tv : GoVal) (wantEq : Bool) : M Bytes := do
   let (eqStr, unit, cusMsg, isEq) := eqCore validName tv
   if isEq == wantEq then return []
-  let input ← toStrIface tv
+  let input ← toStrIface ext tv
   return violClause obj field input cusMsg
     [if wantEq then b! "it should equal" else b! "it is not equal", eqStr, unit]
 
@@ -253,7 +269,7 @@ def sliceM (s : Bytes) (lo hi : Nat) : M Bytes :=
 
 def lastIndexByte (c : UInt8) (s : Bytes) : Option Nat := Bytes.lastIndexByte? c s
 
-def ruleIn (validName obj field : Bytes) (tv : GoVal) : M Bytes := do
+def ruleIn (ext : Ext) (validName obj field : Bytes) (tv : GoVal) : M Bytes := do
   let (key, val, cusMsg) := parseValidNameKV validName
   let isInclude := key == b! "include"
   let useErr := if isInclude then includeErr else inValErr
@@ -263,7 +279,7 @@ def ruleIn (validName obj field : Bytes) (tv : GoVal) : M Bytes := do
     let inVals ← sliceM val (l + 1) r
     let tvVal ← match tv with
       | .str s => pure s
-      | v => if isInclude then return getJoinFieldErr obj field useErr else toStrIface v
+      | v => if isInclude then return getJoinFieldErr obj field useErr else toStrIface ext v
     let opts := (validNamesSplit inVals 47).map (Bytes.trimByte QUOTE)
     let isIn := opts.any fun o => if isInclude then Bytes.containsSub tvVal o else tvVal == o
     if isIn then return []
@@ -378,13 +394,13 @@ def ruleRe (ext : Ext) (validName obj field : Bytes) (tv : GoVal) : M Bytes := d
 
 def isIntKind (tv : GoVal) : Bool := match tv with | .int _ _ | .uint _ _ => true | _ => false
 
-def ruleInt (validName obj field : Bytes) (tv : GoVal) : M Bytes := do
+def ruleInt (ext : Ext) (validName obj field : Bytes) (tv : GoVal) : M Bytes := do
   let (_, _, cusMsg) := parseValidNameKV validName
   match tv with
   | .str s => if Lang.intRe s then return [] else return violClause obj field s cusMsg [b! "it is not integer"]
   | v =>
     if isIntKind v then return []
-    let vs ← toStrIface v
+    let vs ← toStrIface ext v
     return violClause obj field vs cusMsg [b! "it is not integer"]
 
 /-- `strings.Split(s, sep)` for a non-empty separator -/
@@ -404,7 +420,7 @@ where
 def bracketJoin (sep : Bytes) (parts : List Bytes) : Bytes :=
   parts.foldl (fun acc v => if acc == [91] then acc ++ v else acc ++ sep ++ v) [91] ++ [93]
 
-def ruleInts (validName obj field : Bytes) (tv : GoVal) : M Bytes := do
+def ruleInts (ext : Ext) (validName obj field : Bytes) (tv : GoVal) : M Bytes := do
   let (_, split0, cusMsg) := parseValidNameKV validName
   let split1 := Bytes.trimByte QUOTE split0
   let split := if split1.isEmpty then [COMMA] else split1
@@ -414,7 +430,7 @@ def ruleInts (validName obj field : Bytes) (tv : GoVal) : M Bytes := do
     if ok then return []
     return violClause obj field s cusMsg [b! "it is not separated by \"" ++ split ++ b! "\" num"]
   | .slice _ _ _ es | .array _ _ es =>
-    let parts ← es.toList.mapM toStrIface
+    let parts ← es.toList.mapM (toStrIface ext)
     let ok := parts.all Lang.intRe
     let valStr := bracketJoin (b! ", ") parts
     if ok then return []
@@ -423,27 +439,27 @@ def ruleInts (validName obj field : Bytes) (tv : GoVal) : M Bytes := do
     if isIntKind v then return []
     return getJoinFieldErr obj field intsErr
 
-def ruleFloat (validName obj field : Bytes) (tv : GoVal) : M Bytes := do
+def ruleFloat (ext : Ext) (validName obj field : Bytes) (tv : GoVal) : M Bytes := do
   let (_, _, cusMsg) := parseValidNameKV validName
   match tv with
   | .str s => if Lang.floatRe s then return [] else return violClause obj field s cusMsg [b! "it is not float"]
   | .float _ _ _ _ => return []
   | v =>
-    let vs ← toStrIface v
+    let vs ← toStrIface ext v
     return violClause obj field vs cusMsg [b! "it is not float"]
 
 def allDistinct : List Bytes → Bool
   | [] => true
   | x :: xs => !xs.contains x && allDistinct xs
 
-def ruleUnique (validName obj field : Bytes) (tv : GoVal) : M Bytes := do
+def ruleUnique (ext : Ext) (validName obj field : Bytes) (tv : GoVal) : M Bytes := do
   let (_, _, cusMsg) := parseValidNameKV validName
   match tv with
   | .str s =>
     if allDistinct (Bytes.splitByte COMMA s) then return []
     return violClause obj field s cusMsg [b! "they're not unique"]
   | .slice _ _ _ es | .array _ _ es =>
-    let parts ← es.toList.mapM toStrIface
+    let parts ← es.toList.mapM (toStrIface ext)
     let inVal := bracketJoin [COMMA] parts
     if allDistinct parts then return []
     return violClause obj field inVal cusMsg [b! "they're not unique"]
@@ -505,10 +521,10 @@ def builtinTable : List (Bytes × Builtin) := [
   (b! "gt", .fn fun _ v o f tv => pure (ruleBound v o f tv true false)),
   (b! "le", .fn fun _ v o f tv => pure (ruleBound v o f tv false true)),
   (b! "lt", .fn fun _ v o f tv => pure (ruleBound v o f tv false false)),
-  (b! "eq", .fn fun _ v o f tv => ruleEq v o f tv true),
-  (b! "noeq", .fn fun _ v o f tv => ruleEq v o f tv false),
-  (b! "in", .fn fun _ v o f tv => ruleIn v o f tv),
-  (b! "include", .fn fun _ v o f tv => ruleIn v o f tv),
+  (b! "eq", .fn fun ext v o f tv => ruleEq ext v o f tv true),
+  (b! "noeq", .fn fun ext v o f tv => ruleEq ext v o f tv false),
+  (b! "in", .fn fun ext v o f tv => ruleIn ext v o f tv),
+  (b! "include", .fn fun ext v o f tv => ruleIn ext v o f tv),
   (b! "phone", .fn fun _ v o f tv => rulePhone v o f tv),
   (b! "email", .fn fun _ v o f tv => ruleEmail v o f tv),
   (b! "idcard", .fn fun _ v o f tv => ruleIDCard v o f tv),
@@ -516,14 +532,14 @@ def builtinTable : List (Bytes × Builtin) := [
   (b! "year2month", .fn ruleYear2Month),
   (b! "date", .fn ruleDate),
   (b! "datetime", .fn ruleDatetime),
-  (b! "int", .fn fun _ v o f tv => ruleInt v o f tv),
-  (b! "ints", .fn fun _ v o f tv => ruleInts v o f tv),
-  (b! "float", .fn fun _ v o f tv => ruleFloat v o f tv),
+  (b! "int", .fn fun ext v o f tv => ruleInt ext v o f tv),
+  (b! "ints", .fn fun ext v o f tv => ruleInts ext v o f tv),
+  (b! "float", .fn fun ext v o f tv => ruleFloat ext v o f tv),
   (b! "re", .fn ruleRe),
   (b! "ip", .fn fun e v o f tv => ruleIp e v o f tv 0),
   (b! "ipv4", .fn fun e v o f tv => ruleIp e v o f tv 1),
   (b! "ipv6", .fn fun e v o f tv => ruleIp e v o f tv 2),
-  (b! "unique", .fn fun _ v o f tv => ruleUnique v o f tv),
+  (b! "unique", .fn fun ext v o f tv => ruleUnique ext v o f tv),
   (b! "json", .fn ruleJson),
   (b! "prefix", .fn fun _ v o f tv => rulePrefix v o f tv true),
   (b! "suffix", .fn fun _ v o f tv => rulePrefix v o f tv false),
